@@ -430,6 +430,8 @@ def main(argv=None):
         return 1 if bad else 0
 
     # 1. regression / witness tier
+    import shutil
+    shutil.rmtree(os.path.join(VERIF, "replays", pid, "found"), ignore_errors=True)
     rdir = os.path.join(VERIF, "replays", pid)
     witness_hits = set()
     if os.path.isdir(rdir):
